@@ -680,6 +680,62 @@ fn c12_stop_disable_restart() {
     assert!(vgm::vg().he_calls == calls_at_reply + 1 && vgm::vg().he_ring_active, "C12: the retained kick is processed once the ring is enabled again");
     kani::cover!(vgm::vg().he_calls == calls_at_reply + 1, "witness: the schedule runs to its end");
 }
+/// stop . any message that must not start a ring . kick on the old descriptor . worker: a ring stopped by
+/// GET_VRING_BASE stays stopped until a new kick descriptor arrives, whatever else is sent for it meanwhile
+fn c12_stop_then_message(op: u8) {
+    let (mut h, _ids) = mk_handler_m(2, &[0b11]);
+    let epfd = ev::EPFD0;
+    h.acked_features = PF;
+    let fd = vgm::FD0;
+    let r = h.set_vring_kick(0, Some(file(fd)));
+    std::mem::forget(r);
+    let r = h.set_vring_enable(0, true);
+    std::mem::forget(r);
+    if kani::any() {
+        let r = h.set_vring_call(0, Some(file(vgm::FD0 + 2)));
+        std::mem::forget(r);
+    }
+    c12_control(&mut h, 2); // GET_VRING_BASE: stopped (reply sent), still enabled
+    let calls_at_reply = vgm::vg().he_calls;
+    let nfd = vgm::FD0 + 3;
+    match op {
+        0 => { let r = h.set_vring_call(0, Some(file(nfd))); assert!(r.is_ok()); std::mem::forget(r); }
+        1 => { let r = h.set_vring_call(0, None); assert!(r.is_ok()); std::mem::forget(r); }
+        2 => { let r = h.set_vring_err(0, Some(file(nfd))); assert!(r.is_ok()); std::mem::forget(r); }
+        3 => { let r = h.set_vring_base(0, kani::any()); assert!(r.is_ok()); std::mem::forget(r); }
+        _ => { let r = h.set_vring_enable(0, true); assert!(r.is_ok()); std::mem::forget(r); }
+    }
+    assert!(!vr::is_started(&h.vrings[0]), "C12/C11: only a kick descriptor starts a stopped ring");
+    // the guest kicks the descriptor the ring had before it was stopped; the worker handles whatever it is told about
+    vgm::kick(fd);
+    if let Some(data) = vgm::registered(epfd, fd) {
+        let res = ev::worker_handle_event(&h.handlers[0], data as u16);
+        std::mem::forget(res);
+    }
+    assert!(vgm::registrations_of(fd) == 0, "C12: the kick descriptor of a stopped ring is not watched");
+    assert!(vgm::vg().he_calls == calls_at_reply, "C12: event handler entered for a ring after the reply to the message that disabled / stopped it");
+    // restart with a new kick descriptor: the ring runs again and the new kick is processed once
+    let fd2 = vgm::FD0 + 1;
+    let r = h.set_vring_kick(0, Some(file(fd2)));
+    assert!(r.is_ok());
+    std::mem::forget(r);
+    vgm::kick(fd2);
+    assert!(vgm::registered(epfd, fd2) == Some(0), "C12: the restarted ring is watched again");
+    let res = ev::worker_handle_event(&h.handlers[0], 0);
+    assert!(res == Some(false));
+    assert!(vgm::vg().he_calls == calls_at_reply + 1 && vgm::vg().he_ring_active, "C12: the kick after the restart is processed");
+    kani::cover!(vgm::vg().he_calls == calls_at_reply + 1, "witness: the schedule runs to its end");
+}
+// @harness props=C12,C11 tier=quick reach=off timeout=900 mem=24 bound="stopped ring stays stopped: SET_VRING_KICK . SET_VRING_ENABLE(1) . [SET_VRING_CALL] . GET_VRING_BASE . SET_VRING_CALL(new descriptor) . guest kick on the old kick descriptor . worker . SET_VRING_KICK(new descriptor) . kick . worker (2 Mutex rings, one worker)" stubs="Epoll::ctl (ghost interest lists), EventConsumer::consume, EventNotifier::notify, close/OwnedFd::drop"
+h_proof! { #[kani::unwind(4)] fn c12_stopped_ring_set_call() { c12_stop_then_message(0) } }
+// @harness props=C12,C11 tier=quick reach=off timeout=900 mem=24 bound="stopped ring stays stopped: SET_VRING_KICK . SET_VRING_ENABLE(1) . [SET_VRING_CALL] . GET_VRING_BASE . SET_VRING_CALL(no descriptor) . guest kick on the old kick descriptor . worker . SET_VRING_KICK(new descriptor) . kick . worker (2 Mutex rings, one worker)" stubs="Epoll::ctl (ghost interest lists), EventConsumer::consume, EventNotifier::notify, close/OwnedFd::drop"
+h_proof! { #[kani::unwind(4)] fn c12_stopped_ring_set_call_none() { c12_stop_then_message(1) } }
+// @harness props=C12,C11 tier=thorough reach=off timeout=900 mem=24 bound="stopped ring stays stopped: SET_VRING_KICK . SET_VRING_ENABLE(1) . [SET_VRING_CALL] . GET_VRING_BASE . SET_VRING_ERR(descriptor) . guest kick on the old kick descriptor . worker . SET_VRING_KICK(new descriptor) . kick . worker (2 Mutex rings, one worker)" stubs="Epoll::ctl (ghost interest lists), EventConsumer::consume, EventNotifier::notify, close/OwnedFd::drop"
+h_proof! { #[kani::unwind(4)] fn c12_stopped_ring_set_err() { c12_stop_then_message(2) } }
+// @harness props=C12,C11 tier=thorough reach=off timeout=900 mem=24 bound="stopped ring stays stopped: SET_VRING_KICK . SET_VRING_ENABLE(1) . [SET_VRING_CALL] . GET_VRING_BASE . SET_VRING_BASE . guest kick on the old kick descriptor . worker . SET_VRING_KICK(new descriptor) . kick . worker (2 Mutex rings, one worker)" stubs="Epoll::ctl (ghost interest lists), EventConsumer::consume, EventNotifier::notify, close/OwnedFd::drop"
+h_proof! { #[kani::unwind(4)] fn c12_stopped_ring_set_base() { c12_stop_then_message(3) } }
+// @harness props=C12,C11 tier=quick reach=off timeout=900 mem=24 bound="stopped ring stays stopped: SET_VRING_KICK . SET_VRING_ENABLE(1) . [SET_VRING_CALL] . GET_VRING_BASE . SET_VRING_ENABLE(1) . guest kick on the old kick descriptor . worker . SET_VRING_KICK(new descriptor) . kick . worker (2 Mutex rings, one worker)" stubs="Epoll::ctl (ghost interest lists), EventConsumer::consume, EventNotifier::notify, close/OwnedFd::drop"
+h_proof! { #[kani::unwind(4)] fn c12_stopped_ring_enable() { c12_stop_then_message(4) } }
 // @harness props=C12,C11 tier=quick reach=off timeout=900 mem=24 bound="stop/restart scenario with the ring disabled while it is stopped: GET_VRING_BASE . SET_VRING_ENABLE(0) . SET_VRING_KICK(new descriptor) . guest kick . worker . SET_VRING_ENABLE(1) . worker (2 Mutex rings, one worker)" stubs="Epoll::ctl (ghost interest lists), EventConsumer::consume, EventNotifier::notify, close/OwnedFd::drop"
 h_proof! { #[kani::unwind(4)] fn c12_stop_disable_restart_h() { c12_stop_disable_restart() } }
 // @harness props=C12 tier=quick reach=off timeout=900 mem=24 bound="schedule W1.C.W for C = GET_VRING_BASE: worker holds a stale epoll event while the ring is stopped; then restart with a new kick descriptor and one kick" stubs="Epoll::ctl (ghost interest lists), EventConsumer::consume, EventNotifier::notify, close/OwnedFd::drop"
